@@ -150,6 +150,66 @@ def run(tier):
                 ck.finding("G1.module-cache-rooted", "G1.module-cache-rooted/" + f.path, F.short_span(ins[0][1][6]),
                            "`%s` caches a module object in %s without rooting it in root_guard: import bindings (not traced) would dangle" % (f.path, ins[0][0]))
 
+        # G1c: the tracer branches on the SHAPE of what it walks (discriminants of Gc-bearing values, emptiness /
+        # iteration of containers), never on plain data: a visit that depends on a flag or a counter makes
+        # reachability depend on run state, and an object referenced only from the skipped field is reclaimed
+        ck.rule("G1c.trace-unconditional", "every branch in the tracer tests the shape of a Gc-bearing value; no visit is conditional on plain data", floor=40)
+        SHAPE_CALLS = ("::is_empty", "::len", "::is_some", "::is_none", "::next", "::is_null")
+        for p in sorted(reach):
+            if p not in fx.fns:
+                continue
+            for f in fx.body_group(fx.fns[p]):
+                if not f.file.startswith("src/"):
+                    continue
+                for bi, bl in enumerate(f.blocks):
+                    t = bl["t"]
+                    if t[0] != "switch" or t[1][0] == "k":
+                        continue
+                    shape = True
+                    why = ""
+                    for d in f.defs().get(t[1][1][0], []):
+                        if d[1] == "T":
+                            cal = f.blocks[d[0]]["t"][1].get("d", "?")
+                            if not cal.endswith(SHAPE_CALLS):
+                                shape, why = False, "result of %s" % cal
+                        elif d[2][0] == "disc":
+                            if not (M.adts_in_type(fx, d[2][2]) & bearing):
+                                shape, why = False, "discriminant of %s (holds no GC handle)" % fx.tys(d[2][2])
+                        else:
+                            flds = [n for pl in M.stmt_reads(["a", None, d[2]]) for (_, _, n) in F.place_fields(pl)]
+                            shape, why = False, "plain data (%s%s)" % (d[2][0], (" of ." + flds[-1]) if flds else "")
+                    ident = "%s: branch in bb%d" % (f.path, bi)
+                    if shape:
+                        ck.instance("G1c.trace-unconditional", "%s#bb%d" % (f.path, bi), F.short_span(bl.get("span") or f.span))
+                        continue
+                    # plain-data branch: harmless only if no successor region visits anything
+                    succs = [tb for _, tb in t[2]] + ([t[3]] if t[3] is not None else [])
+                    gated = []
+                    for sb in set(succs):
+                        if len(f.preds()[sb]) != 1:
+                            continue
+                        for b in M.dominated_region(f, sb):
+                            for s2 in f.blocks[b]["s"]:
+                                if s2[0] == "a":
+                                    for pl in M.stmt_reads(s2):
+                                        for (adt, vn, name) in F.place_fields(pl):
+                                            a = fx.adts.get(adt)
+                                            if a is None:
+                                                continue
+                                            for v in a["variants"]:
+                                                for fld in v["fields"]:
+                                                    if fld["name"] == name and (M.adts_in_type(fx, fld["ty"]) & bearing):
+                                                        gated.append("%s.%s" % (adt, name))
+                            tt = f.blocks[b]["t"]
+                            if tt[0] == "call" and ("ptr" in tt[1] or tt[1].get("d", "").endswith(("FnMut::call_mut", "Fn::call", "FnOnce::call_once"))):
+                                gated.append("visitor call")
+                    ok = not gated
+                    ck.instance("G1c.trace-unconditional", ident, F.short_span(f.span), ok=ok)
+                    if not ok:
+                        ck.finding("G1c.trace-unconditional", "G1c.trace-unconditional/%s/%s" % (f.path, sorted(set(gated))[0]), F.short_span(f.span),
+                                   "the tracer visits %s only under a condition on %s: an object referenced only from there is reclaimed while the condition is false"
+                                   % (", ".join(sorted(set(gated))), why))
+
     # ---------------- G2
     ck.rule("G2.register-writers", "only the designated functions write or mutably borrow BytecodeVM.registers", floor=6)
     for f in fx.fns.values():
